@@ -67,7 +67,8 @@ class RemoteLogHandler(mlzlog.Handler):
             subscriptions = self.subscriptions[modname]
         except KeyError:
             return
-        for conn, lev in subscriptions.items():
+        # iterate over a copy: an other thread may change the subscriptions meanwhile
+        for conn, lev in list(subscriptions.items()):
             if record.levelno >= lev:
                 self.send_log(  # pylint: disable=not-callable
                     conn, modname, LEVEL_NAMES[record.levelno],
